@@ -1711,7 +1711,7 @@ def _held_forms(kind, value):
         if all(float(y).is_integer() for y in flat):
             out += [(f'{dt} ndarray', f'np.array(v, dtype=np.{dt})') for dt in ('int64', 'int32', 'int16', 'int8')]
             if all(y >= 0 for y in flat):
-                out += [(f'unsigned ({dt}) ndarray', f'np.array(v, dtype=np.{dt})') for dt in ('uint8', 'uint16', 'uint64')]
+                out += [('unsigned ndarray', f'np.array(v, dtype=np.{dt})') for dt in ('uint8', 'uint16', 'uint64')]
     elif kind == 'ndarray':              # documented as a NumPy array (wireless.py): numeric dtypes, layouts
         cplx = np.iscomplexobj(value) and bool(np.iscomplex(value).any())
         base = 'complex128' if cplx else 'float64'
